@@ -26,11 +26,14 @@ ItemClasses == {
   "F_other_known",
   "F_zero_known",   \* failed without operation (message-level rejection)
   "P_same",         \* status Operation Pending, no payload
-  "U_same"          \* status value outside the enumeration
+  "U_same",         \* status value outside the enumeration
+  "F_same_pl",      \* failed (known reason, message) although the item carries a well-formed payload of the requested operation
+  "P_same_pl",      \* pending, with such a payload
+  "U_same_pl"       \* unknown status, with such a payload
 }
 Status(c) == CASE c \in {"S_same_pl", "S_same_nopl", "S_same_foreign", "S_other_pl", "S_other_nopl", "S_zero_nopl"} -> "Success"
-               [] c \in {"F_same_known", "F_same_unknown", "F_same_noreason", "F_other_known", "F_zero_known"} -> "Failed"
-               [] c = "P_same" -> "Pending"
+               [] c \in {"F_same_known", "F_same_unknown", "F_same_noreason", "F_other_known", "F_zero_known", "F_same_pl"} -> "Failed"
+               [] c \in {"P_same", "P_same_pl"} -> "Pending"
                [] OTHER -> "Unknown"
 GoodC(c) == c = "S_same_pl"
 Undecodable(c) == c = "S_same_foreign"
